@@ -22,6 +22,13 @@ def trees(name):
     return _TREES[name]
 
 
+def key_tuples():
+    hl = [x for x in values.LEAVES if values.hashable(x)] + [(1,), (0, 'a'), frozenset([1])]
+    yield from itertools.permutations(hl, 2)
+    small = [0, 1, -1, True, 1.5, -0.0, 'a', '', b'a', None, (1,), 10 ** 20]
+    yield from itertools.permutations(small, 3)
+
+
 def check_one(v, expr, cfg, part, cache):
     """One (value, configuration) case.  cfg = dict of pformat keyword arguments."""
     part.n += 1
@@ -106,6 +113,23 @@ def work(item):
             for v in itertools.islice(trees(tname).gen(n), lo, hi):
                 check_value(v, policy, part)
                 part.c['values'] += 1
+        elif kind == 'dictkeys':
+            # every ordered pair of distinct hashable leaves, and every ordered triple over a reduced key set,
+            # as dict keys (insertion order vs ascending order when the keys are comparable)
+            _, lo, hi = item
+            for keys in itertools.islice(key_tuples(), lo, hi):
+                d = {}
+                for i, k in enumerate(keys):
+                    d[k] = i
+                if len(d) != len(keys):
+                    continue
+                for v in (d, [d]):
+                    expr = oracles.expr_of(v)
+                    cache = {}
+                    part.c['family_values'] += 1
+                    for w in (1, 30, 79):
+                        for srt in (False, True):
+                            check_one(v, expr, {'width': w, 'ribbon_width': w, 'indent': 4, 'sort_dict_keys': srt}, part, cache)
         elif kind == 'flat':
             # long flat containers around the printers' "too long to ever fit" shortcut (3n > 150)
             for n in (49, 50, 51, 52, 150):
@@ -179,6 +203,9 @@ def plan(tier, seed):
         for chunk in core.chunks(len(rec), 56):
             items.append(('family', rec[chunk[0]:chunk[1]], (5, 10, 20, 25), leaves, (1, 2, 5, 10, 20, 40, 79, 200), (1, 4, 8)))
         desc.append('deep chains: %d recipes x depths 5,10,20,25 x %d leaves x 8 widths' % (len(rec), len(leaves)))
+    nk = sum(1 for _ in key_tuples())
+    items += [('dictkeys', lo, hi) for lo, hi in core.chunks(nk, 32)]
+    desc.append('dicts with every ordered pair of distinct hashable leaves / every ordered triple over 12 keys as keys (%d key tuples) x sort_dict_keys x 3 widths' % nk)
     items.append(('flat',))
     desc.append('long flat containers with 49..52 and 150 elements at 12 widths (the 3n > 150 shortcut)')
     return items, desc
